@@ -42,6 +42,9 @@ let run (st : stream) (b : Buffer.t) : unit =
     (* the executable hypotheses of the end-to-end theorem (EndToEndStmts.v / Hyps.v) on this run *)
     pr "HYP valid=%b unsigned=%b perm=%b tours=%b\n" (valid_instance_b inst) (inst_unsigned_b inst)
       (List.length perm = int_of_nat inst.i_nlocs || inst.i_depots <> None) (tours_ok_b nw tours);
+    (* ... and of the "pipeline never crashes" theorem (PipelineTotalStmts.v / Hyps2.v) *)
+    pr "HYP2 costs=%b typed=%b limits=%b fleet=%b\n" (params_costs_nonneg_b inst.i_params) (tours_typed_b nw tours)
+      (tours_within_limits_b nw tours) (fleet_fits_overflow_b nw tours);
     (match from_tours nw tours with
      | Ok s0 ->
        Opsmodel.dump_schedule nw s0 "mcf" b;
